@@ -1,7 +1,7 @@
 """Per-property run plans, evidence texts."""
 
 PLANS = {
-    "C01": {"quick": {"runs": 900, "budget_s": 80, "det": 16}, "thorough": {"runs": 60000, "budget_s": 1500, "det": 64}},
+    "C01": {"quick": {"runs": 1200, "budget_s": 80, "det": 16}, "thorough": {"runs": 60000, "budget_s": 1500, "det": 64}},
     "C11": {"quick": {"runs": 1100, "budget_s": 80, "det": 4}, "thorough": {"runs": 12000, "budget_s": 1500, "det": 16}},
     "C02": {"quick": {"runs": 12000, "budget_s": 75, "det": 32, "also": [("C02P", 5000)]},
             "thorough": {"runs": 900000, "budget_s": 1500, "det": 256, "also": [("C02P", 400000)]}},
@@ -50,13 +50,16 @@ RULES = {
     "C01": "one case = swarm configuration + operation history (adds, deletes, batches, delete_all, commits, prepared commits, "
            "rollbacks, merges, writer restarts, GC; short writes and EINTR on every writer) executed under a seeded schedule; "
            "afterwards the durable image at EVERY boundary between two storage operations of the run (from any thread) is "
-           "reconstructed under three persistence outcomes -- minimal (un-synced names and data lost), maximal (all present), "
-           "seeded random (prefix of un-synced namespace ops; each un-synced tail lost / cut at a random byte / present) -- "
+           "reconstructed under five persistence outcomes -- minimal (un-synced names and data lost), maximal (all present), "
+           "renames-only (un-synced atomic replacements applied, creations/unlinks/data lost), seeded random (prefix of un-synced "
+           "namespace ops; each un-synced tail lost / cut at a random byte / present), seeded subset (each un-synced namespace op "
+           "applied or not); the two seeded outcomes at every third boundary in quick -- "
            "deduplicated by (content hash, allowed commits) and re-opened: opens, checksums clean, content/opstamp/payload == "
            "the last acknowledged commit or the commit in flight, still so with every unreferenced file removed, and (1 in 8 "
            "images in quick, all in thorough) a new writer + add + commit + GC succeed and leave exactly the committed files. "
            "evaluations = executions + images built; non-trivial run: >=1 acknowledged commit and >=2 distinct images; "
-           "distinct: storage event-log hash.",
+           "distinct: storage event-log hash. Adjunct: the real MmapDirectory under strace, per-call and per-commit durability "
+           "checks at syscall level (coverage.mmap_directory_adjunct).",
     "C02": "one case = seeded swarm configuration (1..8 indexing threads, merge policy, segment-cut knob, store settings, "
            "sorted or not, lock flavour) + seeded operation history over {add, delete_term, delete_query, run(batch), "
            "delete_all, commit, prepare_commit+payload/abort, rollback, merge, wait_merging_threads, drop+reopen, gc} + "
